@@ -147,23 +147,23 @@ Theorem C02_rs_one_byte_exact : forall b, set_rs_short [b] = RsPanic <-> ~ (0 <=
 Proof. exact rs_one_byte_exact. Qed.
 Print Assumptions C02_rs_one_byte_exact.
 
-(* ---- 4b. CSV/TSV input: $i after `getline var` (finding F-C02-8) ------------------------------ *)
+(* ---- 4b. CSV/TSV input: $i after `getline var` (was finding F-C02-8, repaired) ------------------ *)
 
-(* full statement: whatever sequence of records read, `getline var`s, uses of NF and reads of $i
-   (i >= 1) happens in CSV/TSV input mode, getField never indexes p.fieldsIsTrueStr out of range *)
-Definition C02_csv_fields_full_statement : Prop :=
-  forall ops, (forall o, In o ops -> match o with ORecord n | OGetlineVar n => 0 <= n | OField i => 1 <= i | ONF => True end) ->
-  f_run fs_init ops <> None.
+(* whatever sequence of records read by the main loop, records read by `getline var` /
+   `getline arr[k]`, uses of NF and reads of $i happens in CSV/TSV input mode, getField never
+   indexes p.fieldsIsTrueStr out of range *)
+Theorem C02_csv_fields_never_panic : forall ops, f_run fs_init ops <> None.
+Proof. exact csv_fields_never_panic. Qed.
+Print Assumptions C02_csv_fields_never_panic.
 
-(* false: BEGIN { n = NF; getline x; print $1 } with a three-field first record *)
-Theorem C02_csv_getline_var_refuted : ~ C02_csv_fields_full_statement.
-Proof. exact csv_getline_var_refuted. Qed.
-Print Assumptions C02_csv_getline_var_refuted.
+(* ... because a record read into a variable leaves the current record's fields as they were *)
+Theorem C02_getline_var_keeps_fields : forall s n, f_step s (OGetlineVar n) = Some s.
+Proof. exact getline_var_keeps_fields. Qed.
+Print Assumptions C02_getline_var_keeps_fields.
 
-(* true when no `getline var` (or `getline array[i]`) is executed *)
-Theorem C02_csv_fields_partial : forall ops, no_getline_var ops -> f_run fs_init ops <> None.
-Proof. exact csv_fields_partial. Qed.
-Print Assumptions C02_csv_fields_partial.
+(* the former witness: BEGIN { n = NF; getline x; print $1 } with a three-field first record *)
+Example C02_csv_former_witness : f_run fs_init [ONF; OGetlineVar 3; OField 1] <> None.
+Proof. discriminate. Qed.
 
 (* ---- non-vacuity ---------------------------------------------------------------------------- *)
 
